@@ -395,6 +395,41 @@ func c17Lint(r linter.Rule, s string) ([]linter.Violation, error) {
 	return res.Violations, res.Error
 }
 
+// c17Repeatable lints the text four times with each of the ten rules on a fresh linter and compares the findings
+// (rule, line, column, message, line text) with those of the first time.
+func c17Repeatable(a *ChildArgs, s, layer string, wit map[string]interface{}) {
+	for _, r := range AllRules() {
+		first := ""
+		for k := 0; k < 4; k++ {
+			res := linter.New(r).LintString(s, "t.sql")
+			var sb strings.Builder
+			for _, v := range res.Violations {
+				fmt.Fprintf(&sb, "%s@%d:%d %q %q;", v.Rule, v.Location.Line, v.Location.Column, v.Message, v.Line)
+			}
+			if res.Error != nil {
+				sb.WriteString("error " + res.Error.Error())
+			}
+			a.Rec.Count("repeat_lints", 1)
+			if k == 0 {
+				first = sb.String()
+				if first != "" {
+					a.Rec.Distinct("repeat_nonempty", r.ID()+"|"+s)
+				}
+				continue
+			}
+			if sb.String() != first {
+				layerKind := layer
+				if i := strings.Index(layerKind, "/"); i >= 0 {
+					layerKind = layerKind[:i]
+				}
+				a.Rec.Viol("C17/"+layerKind+"/"+r.ID()+"/not-repeatable", "a rule flags exactly what it names: the same text gives the same findings on every call",
+					fmt.Sprintf("call 1: %s | call %d: %s", trunc(first, 200), k+1, trunc(sb.String(), 200)), wit)
+				break
+			}
+		}
+	}
+}
+
 func c17CheckText(a *ChildArgs, t c17Text, layer string) {
 	a.Rec.Count("evaluations", 1)
 	a.Rec.Distinct("texts", t.S)
@@ -414,6 +449,9 @@ func c17CheckText(a *ChildArgs, t c17Text, layer string) {
 		e := offs[li] + len(lines[li])
 		return e < len(t.S) && e > 0 && mask[e] && mask[e-1]
 	}
+	// every rule, reference oracle or not: the same text gives the same findings each time it is linted (a rule that
+	// ranges over a map to pick "the most common" layout answers differently from call to call on a tie)
+	c17Repeatable(a, t.S, layer, wit)
 	for _, cr := range rules {
 		viols, err := c17Lint(cr.rule, t.S)
 		if err != nil {
@@ -738,6 +776,19 @@ func c17Child(a *ChildArgs) {
 				c17CheckText(a, t, fmt.Sprintf("catalogue/line-comment-%02d", i))
 				c17CheckText(a, c17ToCRLF(t), fmt.Sprintf("catalogue-crlf/line-comment-%02d", i))
 			}
+		}
+		// select lists whose continuation lines tie between indentation levels (L006 picks "the most common" one), with
+		// line breaks inside literals and comments counted as lines by the rule
+		for i, s := range []string{
+			"SELECT a,\n  b,\n    c\nFROM t\n", "SELECT\n  a,\n    b\nFROM t\n", "SELECT a,\n\tb,\n  c,\n\td,\n  e\nFROM t\n",
+			"SELECT 'x\n y' , 'first\nsecond' FROM t\n", "select a,\n b,\n  c,\n   d,\n    e\nfrom t", "SELECT a,\n  b,\n    c\nFROM t;\nSELECT d,\n      e,\n f\nFROM u\n",
+			"SELECT DISTINCT a,\n    b,\n  c\nFROM t\n", "SELECT a, /* x\n y */ b,\n   c\nFROM t\n", "SELECT a,\n  b,\n    c",
+		} {
+			t := c17Text{S: s, kwBad: map[int]bool{}, kwAny: map[int]bool{}, interior: map[int]bool{}, features: []string{"indent-tie"}}
+			wit := map[string]interface{}{"text": s, "features": t.features}
+			a.Rec.Count("evaluations", 1)
+			c17Repeatable(a, s, fmt.Sprintf("catalogue/indent-tie-%02d", i), wit)
+			c17Repeatable(a, strings.ReplaceAll(s, "\n", "\r\n"), fmt.Sprintf("catalogue-crlf/indent-tie-%02d", i), wit)
 		}
 		// end-of-text shapes
 		for _, s := range []string{"SELECT a\n", "SELECT a", "SELECT a\n\n", "SELECT a\n\n\n", "SELECT a\n\nFROM t\n", "\nSELECT a\n", "\n\nSELECT a\n", "SELECT a \n", ""} {
